@@ -158,3 +158,167 @@ func init() {
 		},
 	})
 }
+
+// truncations returns, for every base, every proper prefix followed by a hole of k bytes.
+func truncations(bases []string, k int) []string {
+	seen := map[string]bool{}
+	var out []string
+	for _, b := range bases {
+		for p := 0; p <= len(b); p++ {
+			s := b[:p] + sep + strconv.Itoa(k) + sep
+			if !seen[s] {
+				seen[s] = true
+				out = append(out, s)
+			}
+		}
+	}
+	return out
+}
+
+func h(n int) string { return sep + strconv.Itoa(n) + sep }
+
+// identSkeletons put a hole of n bytes at every identifier position of small programs.
+func identSkeletons(n int) []string {
+	return []string{
+		"A := \"x\" " + h(n) + " := \"y\"\n",
+		h(n) + " := \"y\"\n",
+		"task " + h(n) + "() {}\n",
+		"X := " + h(n) + "(\"a\")\n",
+		"task t(" + h(n) + ") {}\n",
+		"task t() -> " + h(n) + " {}\n",
+		"A := \"x\"\n" + h(n) + " t() {}\n",
+	}
+}
+
+// commentSkeletons: two-hole skeletons around comments and docstrings (C15).
+func commentSkeletons(a, b int) []string {
+	return []string{
+		"# " + h(a) + "\n#" + h(b) + "\ntask t() {}\n",
+		"#" + h(a) + "\n#" + h(b) + "\nA := \"x\"\n",
+		"#" + h(a) + "\n\n#" + h(b) + "\ntask t() {}\n",
+		"A := \"x\"\n#" + h(a) + "\n" + h(b) + "task t() {}\n",
+		"#" + h(a) + "\ntask t() {\n\tls\n}\n#" + h(b) + "\n",
+		"task t() {}\n#" + h(a) + "\n#" + h(b),
+	}
+}
+
+var lexerGetLine = "(*" + modulePath + "/lexer.Lexer).getLine"
+var parserGetLine = "(*" + modulePath + "/parser.Parser).getLine"
+
+var lexAssumptions = []string{
+	"unicode.IsSpace/IsLetter/IsPunct are summarised by evaluating the host Go standard library function on the finite rune domain (Latin-1 + 8 witnesses)",
+	"scheduler: the lexer goroutine and the parser rendezvous over the unbuffered token channel; run-until-block schedule (deterministic rendezvous)",
+	"fmt.Sprintf/Errorf with symbolic operands return an identity-comparable placeholder; the text is never inspected by the code under test",
+	"engine trusted base: go/ssa construction, the forked x/tools interpreter, the SMT encoding of Go integer/string operations, z3 5.1.0",
+}
+
+var lexOutside = []string{
+	"inputs longer than the bound or not a filling of a listed skeleton",
+	"decoded runes above U+00FF other than the witnesses {U+0100,U+2003,U+2014,U+20AC,U+4E16,U+FFFD,U+10400,U+1F600}",
+}
+
+func fmtFamily(id, fn, explanation string, extraQuick, extraThorough func() []string) *checkDef {
+	return &checkDef{
+		ID: id, Pkg: "lexh", Level: "other", NativeCheck: true,
+		Explanation: explanation,
+		Bounds: func(tier string) string {
+			if tier == "thorough" {
+				return "F(N<=6) + NB(3) over 8 base programs + identifier holes of 5 bytes + two-hole comment skeletons (3,3)"
+			}
+			return "F(N<=4) + NB(1) over 4 base programs + identifier holes of 5 bytes (2 skeletons) + two-hole comment skeletons (1,1)"
+		},
+		Outside:      append(append([]string{}, lexOutside...), "inputs that do not parse end when the lexer/parser starts building its error (they are outside the property's quantifier)"),
+		Assumptions:  lexAssumptions,
+		StopAt:       []string{lexerGetLine, parserGetLine},
+		EndSignature: map[string]string{"crash": id + "/panic", "budget": id + "/non-termination", "deadlock": id + "/deadlock"},
+		Corpus:       corpusJobs(fn),
+		Jobs: func(tier string, seed int64) []jobSpec {
+			opts := interp.Options{Budget: 1_000_000}
+			var skels []string
+			if tier == "thorough" {
+				for n := 0; n <= 6; n++ {
+					skels = append(skels, skelF(n))
+				}
+				skels = append(skels, nbSkeletons(basePrograms, 3, "io")...)
+				skels = append(skels, identSkeletons(5)...)
+				skels = append(skels, commentSkeletons(3, 3)...)
+				if extraThorough != nil {
+					skels = append(skels, extraThorough()...)
+				}
+			} else {
+				for n := 0; n <= 4; n++ {
+					skels = append(skels, skelF(n))
+				}
+				skels = append(skels, nbSkeletons(basePrograms[:4], 1, "io")...)
+				skels = append(skels, identSkeletons(5)[:2]...)
+				skels = append(skels, commentSkeletons(1, 1)...)
+				if extraQuick != nil {
+					skels = append(skels, extraQuick()...)
+				}
+			}
+			return skelJobs(fn, skels, opts)
+		},
+	}
+}
+
+func init() {
+	register(&checkDef{
+		ID: "C08", Pkg: "lexh", Level: "other", NativeCheck: true,
+		Explanation: "Bounded symbolic execution of parser.New(x).Parse() including the lexer goroutine and its channel on the engine's cooperative scheduler. " +
+			"For every path: no runtime panic in either goroutine (crash verdict), termination inside an instruction budget (unwinding check, reported as a violation only if the native replay hangs too), no deadlock, " +
+			"the same outcome on a second parse, and every returned error is the text of a located error object whose line is in 1..#lines and whose context equals the trimmed text of that line (solver-decided on the symbolic bytes).",
+		Bounds: func(tier string) string {
+			if tier == "thorough" {
+				return "F(N<=5) + NB(2) over 8 base programs + every truncation of the base programs followed by 0..2 free bytes; both scheduler priorities"
+			}
+			return "F(N<=3) + NB(1) over 3 base programs + every truncation of 3 base programs followed by 0..1 free bytes; both scheduler priorities for F"
+		},
+		Outside:      lexOutside,
+		Assumptions:  lexAssumptions,
+		Observe:      []string{"(" + modulePath + "/lexer.syntaxError).Error", "(" + modulePath + "/parser.illegalToken).Error"},
+		EndSignature: map[string]string{"crash": "C08/panic", "budget": "C08/non-termination", "deadlock": "C08/deadlock"},
+		Corpus:       corpusJobs("C08"),
+		Jobs: func(tier string, seed int64) []jobSpec {
+			opts := interp.Options{Budget: 2_000_000}
+			hi := opts
+			hi.Sched = interp.SchedHigh
+			var out []jobSpec
+			var skels, fs []string
+			if tier == "thorough" {
+				for n := 0; n <= 5; n++ {
+					fs = append(fs, skelF(n))
+				}
+				skels = append(skels, nbSkeletons(basePrograms, 2, "io")...)
+				skels = append(skels, truncations(basePrograms, 0)...)
+				skels = append(skels, truncations(basePrograms, 1)...)
+				skels = append(skels, truncations(basePrograms, 2)...)
+			} else {
+				for n := 0; n <= 3; n++ {
+					fs = append(fs, skelF(n))
+				}
+				skels = append(skels, nbSkeletons(basePrograms[:3], 1, "io")...)
+				skels = append(skels, truncations(basePrograms[:3], 0)...)
+				skels = append(skels, truncations(basePrograms[:3], 1)...)
+			}
+			out = append(out, skelJobs("C08", fs, opts)...)
+			for _, j := range skelJobs("C08", fs, hi) {
+				j.Name += "/sched-high"
+				out = append(out, j)
+			}
+			out = append(out, skelJobs("C08", skels, opts)...)
+			if tier == "thorough" {
+				for _, j := range skelJobs("C08", skels, hi) {
+					j.Name += "/sched-high"
+					out = append(out, j)
+				}
+			}
+			return out
+		},
+	})
+	register(fmtFamily("C07", "C07",
+		"Bounded symbolic execution of Parse, Tree.String and Parse again on symbolic input bytes: for every path on which the input parses, the formatted text must parse and the sequence of assignments (name, value kind and text/arguments) and tasks (name, dependencies, outputs, commands) must be equal; string equalities over symbolic bytes are solver queries.", nil, nil))
+	register(fmtFamily("C11", "C11",
+		"Bounded symbolic execution of Parse/String twice: for every path on which the input and its formatted text parse, String(Parse(format(x))) == format(x) byte for byte (a conjunction of byte equalities refuted or satisfied by the solver).", nil, nil))
+	register(fmtFamily("C15", "C15",
+		"Bounded symbolic execution of Parse/String/Parse: for every path on which the input and its formatted text parse, the sequence of trimmed non-empty comment texts (comments and docstrings in source order) and each task's trimmed docstring are equal before and after formatting.", nil, nil))
+}
